@@ -286,9 +286,11 @@ def expected_data(api):
     return exp
 
 
-def judge_write(api, text, den, err):
+def judge_write(api, text, den, err, check_block=True):
     """First failure of the property on one written file. -> None | (class, datum, detail)
-    api: api_snapshot before the write; den: the Spec's denotation of the written text (None if the write raised)."""
+    api: api_snapshot before the write; den: the Spec's denotation of the written text (None if the write raised).
+    With check_block=False the same comparison judges the READ half of the property: `den` is the Spec's reading of
+    the INPUT file and `api` what the API reports right after reading (whichever block the data were given in)."""
     flags = dict(zip(CLASSES, api["flags"]))
     if err is not None:
         if err == "ValueError:fill-complex" and flags["fill"] and any(c["fill_complex"] or c["fill_multi"] for c in api["cells"]):
@@ -335,7 +337,7 @@ def judge_write(api, text, den, err):
             return ("duplicated", b, f"cell[{i}] {b}:{part} given {len(places)} times: {places}")
         blk, vals = places[0]
         want_blk = "data" if flags[b] else "cell"
-        if blk != want_blk:
+        if check_block and blk != want_blk:
             return ("wrong-block", b, f"cell[{i}] {b}:{part} printed in the {blk} block, print_in_data_block[{b}]={flags[b]}")
         want = exp[key]
         if want is None:
